@@ -1,12 +1,12 @@
 """C15: stream compression of tar input/output is transparent."""
 OBLIGATIONS = []
 def wrap(kind, tiers):
-    nm = {1: "gzip", 2: "xz", 3: "bzip2"}[kind]
+    nm = {1: "gzip", 2: "xz", 3: "bzip2", 4: "zstd"}[kind]
     return dict(name="codec_wrapper_contract_%s" % nm, harness="harness/C15_wrappers.c", sources=[], included_sources=["lib/xfrm/src/%s.c" % nm],
-        defines=dict(KIND=kind), unwind=8, termination=True, tiers=tiers, timeout=300, reach=["end", "finish_without_input", "done"],
+        defines=dict(KIND=kind), unwind=(12 if kind == 4 else 8), termination=True, tiers=tiers, timeout=300, reach=["end", "finish_without_input", "done"],
         functions=["process_data (lib/xfrm/src/%s.c)" % nm],
         bound="one process_data call: input 0..4 bytes, output space 0..4 bytes, flush mode NONE/FULL, library backlog 0..3 bytes, every library behaviour the contract stub allows")
-OBLIGATIONS += [wrap(1, ["quick", "thorough"]), wrap(2, ["quick", "thorough"]), wrap(3, ["quick", "thorough"])]
+OBLIGATIONS += [wrap(1, ["quick", "thorough"]), wrap(2, ["quick", "thorough"]), wrap(3, ["quick", "thorough"]), wrap(4, ["quick", "thorough"])]
 def ost(n, k, buf, tiers, timeout=400):
     return dict(name="ostream_wrapper_n%d_k%d_buf%d" % (n, k, buf), harness="harness/C15_ostream.c", sources=[], included_sources=["lib/xfrm/src/ostream.c"],
         defines={"N": n, "K": k, "BUF": buf, "AGENTD_SQUASHFS_TOOLS_NG_VERIF_BUFSZ": buf}, unwind=max(n + buf, n * k + 3) + 1, unwindset={'flush_inbuf.0': n * k + 4, 'xfrm_append.0': n + 2}, termination=True, tiers=tiers, timeout=timeout,
